@@ -10,7 +10,7 @@ collapses to plain look-ups in the container (`look_single`), and a write below 
 parent is one `aput` (`createGroup_single`, `createDataset_single`, `setAttrRaw_single`).
 -/
 namespace MetadorModel.Single
-open MetadorModel.Tree MetadorModel.Overlay
+open MetadorModel.Tree MetadorModel.Overlay MetadorModel.Merge
 
 variable {V : Type}
 
@@ -376,10 +376,6 @@ theorem setAttrRaw_single (c : Cont V) (p : Path) (n : RNode V) (k : Key) (v : O
 
 /-! ## copying attributes and replaying a listing into a single container -/
 
-/-- attribute map after `copy_attrs` -/
-def putAll (as : List (Key × V)) (m : List (Key × Option V)) : List (Key × Option V) :=
-  as.foldl (fun m kv => aput kv.1 (some kv.2) m) m
-
 theorem aput_aput_same {κ β : Type} [DecidableEq κ] (k : κ) (v1 v2 : β) (m : List (κ × β)) :
     aput k v2 (aput k v1 m) = aput k v2 m := by
   induction m with
@@ -390,6 +386,18 @@ theorem aput_aput_same {κ β : Type} [DecidableEq κ] (k : κ) (v1 v2 : β) (m 
     · simp [aput, h]
     · simp [aput, h, ih]
 
+theorem aput_self {κ β : Type} [DecidableEq κ] (k : κ) (v : β) (m : List (κ × β))
+    (h : aget k m = some v) : aput k v m = m := by
+  induction m with
+  | nil => simp [aget] at h
+  | cons e es ih =>
+    obtain ⟨k', v'⟩ := e
+    by_cases hk : k' = k
+    · simp only [aget, hk, if_true, Option.some.injEq] at h
+      subst h; simp [aput, hk]
+    · simp only [aget, hk, if_false] at h
+      simp [aput, hk, ih h]
+
 theorem copyAttrs_single (as : List (Key × V)) :
     ∀ (c : Cont V) (p : Path) (n : RNode V), aget p c = some n →
       W.copyAttrs [c] p as = .ok [aput p { n with attrs := putAll as n.attrs } c] := by
@@ -397,18 +405,7 @@ theorem copyAttrs_single (as : List (Key × V)) :
   | nil =>
     intro c p n hp
     simp only [W.copyAttrs, putAll, List.foldl_nil]
-    have : aput p { n with attrs := n.attrs } c = c := by
-      clear as
-      induction c with
-      | nil => simp [aget] at hp
-      | cons e es ih =>
-        obtain ⟨k', v'⟩ := e
-        by_cases hk : k' = p
-        · simp only [aget, hk, if_true, Option.some.injEq] at hp
-          subst hp; simp [aput, hk]
-        · simp only [aget, hk, if_false] at hp
-          simp [aput, hk, ih hp]
-    rw [this]
+    rw [aput_self p _ c (by simpa using hp)]
   | cons kv more ih =>
     intro c p n hp
     obtain ⟨k, v⟩ := kv
@@ -416,19 +413,11 @@ theorem copyAttrs_single (as : List (Key × V)) :
     rw [ih _ p { n with attrs := aput k (some v) n.attrs } (aget_aput_same _ _ _)]
     simp [putAll, aput_aput_same]
 
-def rawKind : NKind V → RKind V
-  | .group => .vgroup
-  | .data v => .data v
-
 theorem rawKind_notDel (kd : NKind V) : (rawKind kd).isDel = false := by
   cases kd <;> simp [rawKind, RKind.isDel]
 
 theorem plainKind_rawKind (kd : NKind V) : plainKind (rawKind kd) = some kd := by
   cases kd <;> simp [rawKind, plainKind]
-
-/-- what one replayed listing entry does to the container -/
-def apply1 (c : Cont V) (e : Path × NKind V × List (Key × V)) : Cont V :=
-  aput e.1 ⟨rawKind e.2.1, putAll e.2.2 []⟩ c
 
 /-- the entry can be replayed: its parent is an existing group and the path itself is fresh -/
 def StepOk (c : Cont V) (e : Path × NKind V × List (Key × V)) : Prop :=
@@ -460,8 +449,8 @@ theorem step_single (c : Cont V) (g : Good c) (e : Path × NKind V × List (Key 
     have hl := look_single_found _ g1.pc g1.nodel (par ++ [k]) vnode hne (aget_aput_same _ _ _)
     have hca := copyAttrs_single as (aput (par ++ [k]) vnode c) (par ++ [k]) vnode (aget_aput_same _ _ _)
     refine ⟨?_, ?_⟩
-    · simp [createGroup_single c g par k np hnp hg hnone, bind, Except.bind, hl, hca, apply1,
-        rawKind, aput_aput_same, vnode]
+    · simp only [createGroup_single c g par k np hnp hg hnone, bind, Except.bind, hl, hca]
+      simp [apply1, rawKind, aput_aput_same, vnode]
     · simpa [apply1, rawKind] using hgood ⟨.vgroup, putAll as []⟩ (by simp [RKind.isDel])
   | data v =>
     have g1 := hgood ⟨.data v, []⟩ (by simp [RKind.isDel])
@@ -469,9 +458,24 @@ theorem step_single (c : Cont V) (g : Good c) (e : Path × NKind V × List (Key 
     have hca := copyAttrs_single as (aput (par ++ [k]) ⟨.data v, []⟩ c) (par ++ [k]) ⟨.data v, []⟩
       (aget_aput_same _ _ _)
     refine ⟨?_, ?_⟩
-    · simp [createDataset_single c g par k np v hnp hg hnone, bind, Except.bind, hl, hca, apply1,
-        rawKind, aput_aput_same]
+    · simp only [createDataset_single c g par k np v hnp hg hnone, bind, Except.bind, hl, hca]
+      simp [apply1, rawKind, aput_aput_same]
     · simpa [apply1, rawKind] using hgood ⟨.data v, putAll as []⟩ (by simp [RKind.isDel])
+
+/-- one iteration of the replay loop -/
+def stepBody (r : Rec V) (e : Path × NKind V × List (Key × V)) : Except Err (Rec V) := do
+  let r1 ← (match e.2.1 with
+    | .group => W.createGroup r e.1
+    | .data v => W.createDataset r e.1 v)
+  match look r1 e.1 with
+    | .found _ _ => W.copyAttrs r1 e.1 e.2.2
+    | _ => .error .missing
+
+theorem replay_cons (r : Rec V) (e : Path × NKind V × List (Key × V)) (more : List (Path × NKind V × List (Key × V))) :
+    W.replay [] [] r (e :: more) = (stepBody r e) >>= fun r2 => W.replay [] [] r2 more := by
+  obtain ⟨q, kd, as⟩ := e
+  simp only [W.replay, stepBody, List.nil_append, List.length_nil, List.drop_zero, bind_assoc]
+  rfl
 
 theorem replay_single (l : List (Path × NKind V × List (Key × V))) :
     ∀ (c : Cont V), Good c → Chain c l →
@@ -484,21 +488,367 @@ theorem replay_single (l : List (Path × NKind V × List (Key × V))) :
     obtain ⟨h1, g1⟩ := step_single c g e hs
     obtain ⟨h2, g2⟩ := ih (apply1 c e) g1 hmore
     refine ⟨?_, by simpa using g2⟩
-    obtain ⟨q, kd, as⟩ := e
-    simp only [W.replay, List.nil_append, List.length_nil, List.drop_zero, List.foldl_cons]
-    simp only [bind, Except.bind] at h1 ⊢
-    -- the two monadic steps of the loop body are the ones of `step_single`
-    revert h1
-    cases kd <;> simp only <;> intro h1
-    all_goals
-      split at h1
-      · cases h1
-      · rename_i r1 hr1
-        simp only [hr1]
-        split at h1
-        · rename_i _ _ hlk
-          simp only [hlk, h1]
-          exact h2
-        · cases h1
+    have h1' : stepBody [c] e = .ok [apply1 c e] := h1
+    rw [replay_cons, h1']
+    simpa [bind, Except.bind] using h2
+
+/-! ## reading a well-formed single container back -/
+
+theorem lookFrom_found_imp (c : Cont V) :
+    ∀ (rest pre : Path) (cur : RNode V) (i : Nat) (n : RNode V),
+      rest ≠ [] → lookFrom [c] pre 0 cur rest = .found i n → aget (pre ++ rest) c = some n ∧ i = 0 := by
+  intro rest
+  induction rest with
+  | nil => intro pre cur i n h; exact absurd rfl h
+  | cons k rest ih =>
+    intro pre cur i n _ hl
+    simp only [lookFrom] at hl
+    by_cases hcur : cur.kind.isGroup = true
+    · simp only [hcur, if_true, child_single] at hl
+      cases hk : aget (pre ++ [k]) c with
+      | none => simp [hk] at hl
+      | some n' =>
+        simp only [hk] at hl
+        by_cases hd : n'.kind.isDel = true
+        · simp [hd] at hl
+        · simp only [hd, Bool.false_eq_true, if_false] at hl
+          cases rest with
+          | nil =>
+            simp only [lookFrom, Look.found.injEq] at hl
+            obtain ⟨rfl, rfl⟩ := hl
+            exact ⟨by simpa using hk, rfl⟩
+          | cons k2 rest2 =>
+            have := ih (pre ++ [k]) n' i n (by simp) hl
+            simpa using this
+    · simp [hcur] at hl
+
+theorem viewKind_single (c : Cont V) (g : Good c) (q : Path) :
+    viewKind [c] q = (aget q c).bind (fun n => plainKind n.kind) := by
+  by_cases hq : q = []
+  · subst hq
+    obtain ⟨r, hr, hg⟩ := g.root
+    have : plainKind r.kind = some NKind.group := by
+      cases hk : r.kind <;> simp_all [RKind.isGroup, plainKind]
+    simp only [viewKind, look, lookFrom, hr, Option.bind_some, this]
+    simp [plainKind, vnode]
+  · cases h : aget q c with
+    | some n =>
+      simp [viewKind, look_single_found c g.pc g.nodel q n hq h]
+    | none =>
+      simp only [viewKind, Option.bind_none]
+      cases hl : look [c] q with
+      | found i n =>
+        have := (lookFrom_found_imp c q [] vnode i n hq hl).1
+        simp only [List.nil_append] at this
+        rw [h] at this; cases this
+      | part _ _ => rfl
+      | insideValue => rfl
+
+theorem attrFind_single (c : Cont V) (q : Path) (k : Key) :
+    attrFind q k 0 [c] = (aget q c).bind (fun n => (aget k n.attrs).map (fun v => (0, v))) := by
+  simp only [attrFind, List.length_nil, Nat.lt_irrefl, if_false]
+  cases h : aget q c with
+  | none => simp
+  | some n => cases h2 : aget k n.attrs <;> simp [h2]
+
+/-- the attribute `k` of the node at `q`, read from a raw node -/
+def rawAttr (n : RNode V) (k : Key) : Option V :=
+  match aget k n.attrs with
+  | some (some v) => some v
+  | _ => none
+
+theorem viewAttr_single (c : Cont V) (g : Good c) (q : Path) (k : Key) :
+    viewAttr [c] q k = (aget q c).bind (fun n => rawAttr n k) := by
+  by_cases hq : q = []
+  · subst hq
+    obtain ⟨r, hr, _⟩ := g.root
+    simp only [viewAttr, look, lookFrom, attrOf, attrFind_single, hr, Option.bind_some, rawAttr]
+    cases aget k r.attrs with
+    | none => rfl
+    | some v => cases v <;> rfl
+  · cases h : aget q c with
+    | some n =>
+      simp only [viewAttr, look_single_found c g.pc g.nodel q n hq h, attrOf, attrFind_single, h,
+        Option.bind_some, rawAttr]
+      cases aget k n.attrs with
+      | none => rfl
+      | some v => cases v <;> rfl
+    | none =>
+      simp only [viewAttr, Option.bind_none]
+      cases hl : look [c] q with
+      | found i n =>
+        have := (lookFrom_found_imp c q [] vnode i n hq hl).1
+        simp only [List.nil_append] at this
+        rw [h] at this; cases this
+      | part _ _ => rfl
+      | insideValue => rfl
+
+/-! ## the container built by a replay, as a map -/
+
+theorem chain_fresh (l : List (Path × NKind V × List (Key × V))) :
+    ∀ (c : Cont V) (q : Path) (n : RNode V), Chain c l → aget q c = some n → aget q l = none := by
+  induction l with
+  | nil => intro c q n _ _; rfl
+  | cons e more ih =>
+    intro c q n hch hq
+    obtain ⟨⟨par, k, np, _, _, _, hnone⟩, hmore⟩ := hch
+    have hne : e.1 ≠ q := by intro he; rw [he, hq] at hnone; cases hnone
+    obtain ⟨p, kd, as⟩ := e
+    simp only [aget, hne, if_false]
+    exact ih (apply1 c (p, kd, as)) q n hmore (by
+      simp only [apply1]; rw [aget_aput_other _ _ _ _ (fun h => hne h.symm)]; exact hq)
+
+theorem foldl_apply1_get (l : List (Path × NKind V × List (Key × V))) :
+    ∀ (c : Cont V) (q : Path), Chain c l →
+      aget q (l.foldl apply1 c) = match aget q l with
+        | some e => some ⟨rawKind e.1, putAll e.2 []⟩
+        | none => aget q c := by
+  induction l with
+  | nil => intro c q _; rfl
+  | cons e more ih =>
+    intro c q hch
+    obtain ⟨hs, hmore⟩ := hch
+    obtain ⟨p, kd, as⟩ := e
+    simp only [List.foldl_cons, ih _ q hmore]
+    by_cases hp : p = q
+    · subst hp
+      have hfresh := chain_fresh more (apply1 c (p, kd, as)) p ⟨rawKind kd, putAll as []⟩ hmore
+        (by simp [apply1, aget_aput_same])
+      simp [hfresh, aget, apply1, aget_aput_same]
+    · have : ¬ q = p := fun h => hp h.symm
+      simp only [aget, hp, if_false]
+      cases aget q more with
+      | some e' => rfl
+      | none => simp [apply1, aget_aput_other _ _ _ _ this]
+
+theorem aget_putAll (as : List (Key × V)) :
+    ∀ (m : List (Key × Option V)) (k : Key), (as.map (·.1)).Nodup →
+      aget k (putAll as m) = match aget k as with
+        | some v => some (some v)
+        | none => aget k m := by
+  induction as with
+  | nil => intro m k _; rfl
+  | cons kv more ih =>
+    intro m k hnd
+    obtain ⟨k1, v1⟩ := kv
+    simp only [List.map_cons, List.nodup_cons] at hnd
+    have := ih (aput k1 (some v1) m) k hnd.2
+    simp only [putAll, List.foldl_cons] at this ⊢
+    rw [this]
+    by_cases hk : k1 = k
+    · subst hk
+      have hnone : aget k1 more = none := by
+        cases h : aget k1 more with
+        | none => rfl
+        | some v =>
+          exfalso
+          apply hnd.1
+          clear this ih
+          induction more with
+          | nil => simp [aget] at h
+          | cons x xs ihx =>
+            obtain ⟨kx, vx⟩ := x
+            by_cases hx : kx = k1
+            · simp [hx]
+            · simp only [aget, hx, if_false] at h
+              simp only [List.map_cons, List.mem_cons]
+              right
+              exact ihx (by simp only [List.map_cons, List.nodup_cons] at hnd; exact ⟨fun hc => hnd.1 (by simp [hc]), hnd.2.2⟩) h
+      simp [aget, hnone, aget_aput_same]
+    · have : ¬ k = k1 := fun h => hk h.symm
+      simp only [aget, hk, if_false]
+      cases aget k more with
+      | some v => rfl
+      | none => simp [aget_aput_other _ _ _ _ this]
+
+/-! ## `materialise`: the merged / stub container shows exactly the listing it was built from -/
+theorem good_rootCont (as : List (Key × V)) : Good (rootCont as) :=
+  good_aput_attrs Cont.init good_init [] vnode _ (by simp [Cont.init, aget])
+
+/-- the listing can be replayed parents-first into a fresh container -/
+def Replayable (l : Listing V) : Prop := Chain (rootCont (rootAttrsOf l)) (nonRoot l)
+
+theorem materialise_eq (l : Listing V) (h : Replayable l) :
+    materialise l = .ok [(nonRoot l).foldl apply1 (rootCont (rootAttrsOf l))] ∧
+    Good ((nonRoot l).foldl apply1 (rootCont (rootAttrsOf l))) := by
+  have hroot : W.copyAttrs (Rec.init : Rec V) [] (rootAttrsOf l) = .ok [rootCont (rootAttrsOf l)] := by
+    have := copyAttrs_single (rootAttrsOf l) (Cont.init : Cont V) [] vnode (by simp [Cont.init, aget])
+    simpa [Rec.init, rootCont, vnode] using this
+  obtain ⟨h1, g1⟩ := replay_single (nonRoot l) (rootCont (rootAttrsOf l)) (good_rootCont _) h
+  refine ⟨?_, g1⟩
+  simp only [materialise]
+  change (do let r1 ← W.copyAttrs (Rec.init : Rec V) [] (rootAttrsOf l); W.replay [] [] r1 (nonRoot l)) = _
+  rw [hroot]
+  simpa [bind, Except.bind] using h1
+
+theorem aget_mem {κ β : Type} [DecidableEq κ] (m : List (κ × β)) (k : κ) (v : β)
+    (h : aget k m = some v) : (k, v) ∈ m := by
+  induction m with
+  | nil => simp [aget] at h
+  | cons x xs ih =>
+    obtain ⟨kx, vx⟩ := x
+    by_cases hx : kx = k
+    · simp only [aget, hx, if_true, Option.some.injEq] at h
+      subst h; subst hx; simp
+    · simp only [aget, hx, if_false] at h
+      exact List.mem_cons_of_mem _ (ih h)
+
+/-- kinds shown by the materialised container -/
+theorem materialise_kind (l : Listing V) (h : Replayable l) (m : Rec V) (hm : materialise l = .ok m)
+    (q : Path) (hq : q ≠ []) :
+    viewKind m q = (aget q (nonRoot l)).map (fun e => e.1) := by
+  obtain ⟨heq, g⟩ := materialise_eq l h
+  rw [heq] at hm
+  cases hm
+  rw [viewKind_single _ g, foldl_apply1_get _ _ _ h]
+  cases hl : aget q (nonRoot l) with
+  | some e => simp [plainKind_rawKind]
+  | none =>
+    have : aget q (rootCont (rootAttrsOf l)) = none := by
+      simp only [rootCont, aget_aput, Cont.init, aget]
+      simp [hq, fun h : [] = q => hq h.symm]
+    simp [this]
+
+/-- attributes shown by the materialised container -/
+theorem materialise_attr (l : Listing V) (h : Replayable l) (m : Rec V) (hm : materialise l = .ok m)
+    (hnd : ∀ e ∈ l, (e.2.2.map (·.1)).Nodup) (q : Path) (hq : q ≠ []) (k : Key) :
+    viewAttr m q k = (aget q (nonRoot l)).bind (fun e => aget k e.2) := by
+  obtain ⟨heq, g⟩ := materialise_eq l h
+  rw [heq] at hm
+  cases hm
+  rw [viewAttr_single _ g, foldl_apply1_get _ _ _ h]
+  cases hl : aget q (nonRoot l) with
+  | some e =>
+    have hmem : (q, e) ∈ l := (List.mem_filter.mp (aget_mem _ _ _ hl)).1
+    have hn := hnd (q, e) hmem
+    simp only [Option.bind_some, rawAttr, aget_putAll e.2 [] k hn]
+    cases aget k e.2 <;> simp [aget]
+  | none =>
+    have : aget q (rootCont (rootAttrsOf l)) = none := by
+      simp only [rootCont, aget_aput, Cont.init, aget]
+      simp [hq, fun h : [] = q => hq h.symm]
+    simp [this]
+
+/-- root attributes shown by the materialised container -/
+theorem materialise_root_attr (l : Listing V) (h : Replayable l) (m : Rec V) (hm : materialise l = .ok m)
+    (hnd : (rootAttrsOf l |>.map (·.1)).Nodup) (k : Key) :
+    viewAttr m [] k = aget k (rootAttrsOf l) ∧ viewKind m [] = some .group := by
+  obtain ⟨heq, g⟩ := materialise_eq l h
+  rw [heq] at hm
+  cases hm
+  have hroot : aget [] ((nonRoot l).foldl apply1 (rootCont (rootAttrsOf l))) =
+      some { (vnode : RNode V) with attrs := putAll (rootAttrsOf l) [] } := by
+    rw [foldl_apply1_get _ _ _ h]
+    have hnone : aget [] (nonRoot l) = none :=
+      chain_fresh _ _ [] { (vnode : RNode V) with attrs := putAll (rootAttrsOf l) [] } h
+        (by simp [rootCont, aget_aput_same])
+    simp [hnone, rootCont, aget_aput_same]
+  refine ⟨?_, ?_⟩
+  · rw [viewAttr_single _ g, hroot]
+    simp only [Option.bind_some, rawAttr, aget_putAll _ [] k hnd]
+    cases aget k (rootAttrsOf l) <;> simp [aget]
+  · rw [viewKind_single _ g, hroot]
+    simp [plainKind, vnode]
+
+/-! ## the decidable well-formedness report implies `Replayable` -/
+
+theorem stepOkB_sound (c : Cont V) (e : Path × NKind V × List (Key × V)) (h : stepOkB c e = true) :
+    StepOk c e := by
+  simp only [stepOkB] at h
+  cases hr : e.1.reverse with
+  | nil => simp [hr] at h
+  | cons k rpar =>
+    simp only [hr, Bool.and_eq_true, Option.isNone_iff_eq_none] at h
+    obtain ⟨h1, h2⟩ := h
+    have he : e.1 = rpar.reverse ++ [k] := by
+      have := congrArg List.reverse hr
+      simpa using this
+    cases hp : aget rpar.reverse c with
+    | none => simp [hp] at h1
+    | some np =>
+      simp only [hp] at h1
+      exact ⟨rpar.reverse, k, np, he, hp, h1, h2⟩
+
+theorem chainB_sound (l : Listing V) : ∀ (c : Cont V), chainB c l = true → Chain c l := by
+  induction l with
+  | nil => intro c _; trivial
+  | cons e more ih =>
+    intro c h
+    simp only [chainB, Bool.and_eq_true] at h
+    exact ⟨stepOkB_sound c e h.1, ih _ h.2⟩
+
+theorem replayableB_sound (l : Listing V) (h : replayableB l = true) : Replayable l :=
+  chainB_sound _ _ h
+
+/-! ## stubs: the emptied listing is replayable whenever the listing is -/
+
+theorem aget_map_val {κ β γ : Type} [DecidableEq κ] (f : β → γ) (m : List (κ × β)) (k : κ) :
+    aget k (m.map (fun e => (e.1, f e.2))) = (aget k m).map f := by
+  induction m with
+  | nil => rfl
+  | cons e es ih =>
+    obtain ⟨k', v'⟩ := e
+    by_cases h : k' = k <;> simp [aget, h, ih]
+
+/-- kind and attribute names kept, all values replaced by `empty` -/
+def emptied (empty : V) (x : NKind V × List (Key × V)) : NKind V × List (Key × V) :=
+  ((match x.1 with | .group => .group | .data _ => .data empty), x.2.map (fun kv => (kv.1, empty)))
+
+theorem stubListing_eq (empty : V) (l : Listing V) :
+    stubListing empty l = l.map (fun e => (e.1, emptied empty e.2)) := rfl
+
+def SameShape (c c' : Cont V) : Prop :=
+  ∀ q, (aget q c).map (fun n => n.kind.isGroup) = (aget q c').map (fun n => n.kind.isGroup)
+
+theorem rawKind_emptied_isGroup (empty : V) (kd : NKind V) :
+    (rawKind (emptied empty (kd, ([] : List (Key × V)))).1).isGroup = (rawKind kd).isGroup := by
+  cases kd <;> rfl
+
+theorem chain_stub (empty : V) (l : Listing V) :
+    ∀ (c c' : Cont V), SameShape c c' → Chain c l →
+      Chain c' (l.map (fun e => (e.1, emptied empty e.2))) := by
+  induction l with
+  | nil => intro c c' _ _; trivial
+  | cons e more ih =>
+    intro c c' hs hch
+    obtain ⟨⟨par, k, np, he, hnp, hg, hnone⟩, hmore⟩ := hch
+    obtain ⟨p, kd, as⟩ := e
+    simp only at he hnone
+    refine ⟨?_, ?_⟩
+    · have h1 := hs par
+      rw [hnp] at h1
+      cases hp' : aget par c' with
+      | none => simp [hp'] at h1
+      | some np' =>
+        simp only [hp', Option.map_some, Option.some.injEq] at h1
+        have h2 := hs p
+        rw [hnone] at h2
+        have hn' : aget p c' = none := by
+          cases hx : aget p c' with
+          | none => rfl
+          | some x => simp [hx] at h2
+        exact ⟨par, k, np', he, hp', by rw [← h1]; exact hg, hn'⟩
+    · apply ih (apply1 c (p, kd, as)) _ _ hmore
+      intro q
+      simp only [apply1, aget_aput]
+      by_cases hq : q = p
+      · simp only [hq, if_true, Option.map_some, emptied]
+        cases kd <;> rfl
+      · simp only [hq, if_false]
+        exact hs q
+
+theorem nonRoot_stub (empty : V) (l : Listing V) :
+    nonRoot (stubListing empty l) = (nonRoot l).map (fun e => (e.1, emptied empty e.2)) := by
+  simp only [nonRoot, stubListing_eq, List.filter_map]
+  rfl
+
+theorem replayable_stub (empty : V) (l : Listing V) (h : Replayable l) :
+    Replayable (stubListing empty l) := by
+  unfold Replayable at *
+  rw [nonRoot_stub]
+  apply chain_stub empty (nonRoot l) (rootCont (rootAttrsOf l)) _ _ h
+  intro q
+  simp only [rootCont, aget_aput]
+  by_cases hq : q = [] <;> simp [hq]
 
 end MetadorModel.Single
